@@ -73,6 +73,9 @@ type SessWorld struct {
 	// LastCascade accumulates the number of held operations released (evidence).
 	LastCascade int
 	n           int
+	// HeldOwner records which session's operation is held under an id (operation ids are
+	// only unique per stream: a rejected operation of another session may reuse the id).
+	HeldOwner map[uint64]*SS
 }
 
 // NewSessWorld creates a server with the space's VRFs and an empty model.
@@ -565,6 +568,12 @@ func (w *SessWorld) SendOps(s *SS, specs []gen.OpSpec, stamp *spb.Uint128) []str
 		r := w.X.M.Step(sp, oks, fails)
 		probs = append(probs, r.Problems...)
 		w.LastCascade += r.Cascade
+		if _, held := w.X.M.Held[sp.Op.GetId()]; held {
+			if w.HeldOwner == nil {
+				w.HeldOwner = map[uint64]*SS{}
+			}
+			w.HeldOwner[sp.Op.GetId()] = s
+		}
 	}
 	return probs
 }
@@ -644,6 +653,12 @@ func (w *SessWorld) SendOpsMixed(s *SS, specs []gen.OpSpec, stamps []*spb.Uint12
 		r := w.X.M.Step(sp, oks, fails)
 		probs = append(probs, r.Problems...)
 		w.LastCascade += r.Cascade
+		if _, held := w.X.M.Held[sp.Op.GetId()]; held {
+			if w.HeldOwner == nil {
+				w.HeldOwner = map[uint64]*SS{}
+			}
+			w.HeldOwner[sp.Op.GetId()] = s
+		}
 	}
 	return probs
 }
@@ -809,6 +824,9 @@ func (w *SessWorld) CompareState() []string {
 }
 
 func (w *SessWorld) ownerOf(opID uint64) *SS {
+	if o := w.HeldOwner[opID]; o != nil {
+		return o
+	}
 	for _, s := range w.Sess {
 		if s.Sent[opID] {
 			return s
